@@ -114,7 +114,7 @@ BaseUnits == <<"m", "s", "g">>
 \* a unit of another dimension than dim
 WrongUnits(dim) == IF dim = <<1, 0, 0>> THEN <<"", "s", "">> ELSE <<"m", "", "">>
 WrongDim(dim) == IF dim = <<1, 0, 0>> THEN <<0, 1, 0>> ELSE <<1, 0, 0>>
-Req(us, dim, out) == [us |-> us, dim |-> dim, out |-> out]
+Req(us, dim, out) == [us |-> us, dim |-> dim, out |-> out, sc |-> ReqScale(us, dim)]
 NumReqs(v, env) ==
   IF v.dim = NoDim THEN << Req(<<"", "", "">>, NoDim, Out(v)), Req(WrongUnits(NoDim), WrongDim(NoDim), Raise) >>
   ELSE << Req(BaseUnits, v.dim, Out(VIn(v, BaseUnits))),
@@ -167,7 +167,7 @@ Meta == [mode |-> "meta",
          atoms |-> [t \in AllAtomToks |-> AT(t)],
          nodes |-> NodeToks, cnodes |-> CustomNodeToks, extra |-> ExtraNodes,
          units |-> [u \in UnitSyms |-> UText(u)], custom |-> CustomUnits,
-         tplain |-> [t \in TmplToks |-> TPlain(t)]]
+         tplain |-> [t \in TmplToks |-> TPlain(t)], fn1 |-> Fn1Table]
 
 \* which strings are printed: everything when all strings are enumerated; in the pruned (deep)
 \* enumeration only complete expressions of the grammar that are well typed
